@@ -41,7 +41,9 @@ ASSUMPTIONS = [
 
 OPERANDS = [['n', 3], ['n', -2.5], ['n', 0], ['s', '7'], ['s', 'abc'],
             ['s', ''], ['b', True], ['b', False], ['z'], ['n', 10],
-            ['s', '2.5'], ['s', '1e2']]
+            ['s', '2.5'], ['s', '1e2'],
+            # texts that Python's float() reads and a spreadsheet does not
+            ['s', '1_0'], ['s', 'inf'], ['s', 'nan'], ['s', '-Infinity']]
 ARITH = {'+': 'OP_ADD', '-': 'OP_SUB', '*': 'OP_MUL', '/': 'OP_DIV',
          '^': 'POWER', '&': 'CONCAT'}
 NUM_SPELL = ['np', 'Number', 'dectext', 'floattext', 'scitext', 'Text',
